@@ -27,6 +27,9 @@ CONSTANTS
 
 \* Input families: the inputs of a family are  prefix \o t  for every string t of
 \* length <= MaxLen over the family's alphabet.
+\* T12: 1  -  -->  <!--  #a  a  1%  +  .  --  1e  @a   (tokens that fuse with a following CDC / CDO / sign / number when the
+\* comment between them is dropped)
+Pieces == << <<49>>, <<45>>, <<45, 45, 62>>, <<60, 33, 45, 45>>, <<35, 97>>, <<97>>, <<49, 37>>, <<43>>, <<46>>, <<45, 45>>, <<49, 101>>, <<64, 97>> >>
 Alphabet ==
   CASE Family = "T1" -> \* a e u - \ 0 1 . + % # @ " ' ( ) / * space newline { ;
          {97, 101, 117, 45, 92, 48, 49, 46, 43, 37, 35, 64, 34, 39, 40, 41, 47, 42, 32, 10, 123, 59}
@@ -51,6 +54,8 @@ Alphabet ==
          {92, 54, 53, 52, 32, 51, 101, 69, 45}
     [] Family = "T11" -> \* hex escapes at the limits of the code space (10FFFF / 110000) and of the surrogates (D7FF D800 DFFF E000): 1 0 F d 8 7 e
          {49, 48, 70, 100, 56, 55, 101}
+    [] Family = "T12" -> \* whole tokens separated by comments (the alphabet is the set of indices of Pieces)
+         1..Len(Pieces)
 Prefixes ==
   CASE Family = "T3" -> {<<117, 114, 108, 40>>, <<85, 114, 76, 40>>, <<117, 114, 108, 40, 32>>}
     [] Family = "T7" -> {<<92>>, <<34, 92>>}
@@ -61,7 +66,9 @@ Prefixes ==
 \* T9: every character is followed by an empty comment
 RECURSIVE Inter(_)
 Inter(t) == IF t = <<>> THEN <<>> ELSE <<Head(t), 47, 42, 42, 47>> \o Inter(Tail(t))
-Shape(t) == IF Family = "T9" THEN Inter(t) ELSE t
+RECURSIVE InterP(_)
+InterP(t) == IF t = <<>> THEN <<>> ELSE Pieces[Head(t)] \o <<47, 42, 42, 47>> \o InterP(Tail(t))
+Shape(t) == IF Family = "T9" THEN Inter(t) ELSE IF Family = "T12" THEN InterP(t) ELSE t
 
 VARIABLES raw, src, pos, out, stack, phase
 vars == <<raw, src, pos, out, stack, phase>>
